@@ -135,5 +135,6 @@ pub fn mktime<V: ValT>(v: &V) -> ValR<V> {
         .and_then(|dt| dt.to_zoned(tz::TimeZone::UTC))
         .map_err(Error::str)?
         .timestamp();
-    timestamp_to_epoch(ts, ts.subsec_nanosecond() > 0)
+    // the sub-second part of an instant before 1970 is negative
+    timestamp_to_epoch(ts, ts.subsec_nanosecond() != 0)
 }
